@@ -163,6 +163,20 @@ func (r *Result) Violate(v Violation) {
 	r.mu.Unlock()
 }
 
+// ViolationCount returns the number of violation occurrences recorded so far (runners use it to cut a run short once
+// a broken tree has been shown to be broken many times over).
+func (r *Result) ViolationCount() int {
+	r.mu.Lock()
+	defer r.mu.Unlock()
+	n := 0
+	for k, v := range r.Observed {
+		if strings.HasPrefix(k, "violation:") {
+			n += v
+		}
+	}
+	return n
+}
+
 func (r *Result) Inconc(why string) {
 	r.mu.Lock()
 	if len(r.Inconclusive) < 50 {
